@@ -64,6 +64,14 @@ func multiEpoch(r *rand.Rand, g GenCfg) GenCfg {
 var orders = []string{"topo", "lastval", "late"}
 
 var profiles = map[string]profile{
+	// experiment: a long stall (a minority gossips alone), then one block confirms hundreds of events
+	"xstall": {
+		gen: func(r *rand.Rand, k int) GenCfg {
+			return GenCfg{Weights: [][]int{{1, 1, 1, 1}, {2, 2, 1, 1, 1}, {3, 2, 2, 1}}[k%3], Epochs: 1, EpochEvents: 380 + r.Intn(60), MaxParents: 4,
+				Stall: 300 + r.Intn(40), OldParent: 0.02}
+		},
+		plays: func(r *rand.Rand, k int) []PlayOpts { return []PlayOpts{{Order: "topo"}} },
+	},
 	// experiment: dense DAGs with a slow first validator
 	"xlag": {
 		gen: func(r *rand.Rand, k int) GenCfg {
@@ -100,6 +108,10 @@ var profiles = map[string]profile{
 			if len(g.Weights) >= 4 {
 				g.Cheaters = 1
 				g.ForkProb = 0.25
+			}
+			if k%10 == 9 { // a long stall: a minority gossips alone, then one block confirms hundreds of events
+				return GenCfg{Weights: [][]int{{1, 1, 1, 1}, {2, 2, 1, 1, 1}, {3, 2, 2, 1}}[(k/10)%3], Epochs: 1, EpochEvents: 380 + r.Intn(60), MaxParents: 4,
+					Stall: 300 + r.Intn(40), OldParent: 0.02}
 			}
 			if k%2 == 1 { // a slow first validator in a dense DAG: roots that pass several frames and get elected
 				g.MaxParents = len(g.Weights)
